@@ -4,7 +4,7 @@ use std::ops::RangeInclusive;
 use chrono::prelude::Datelike;
 use chrono::{Duration, NaiveDate, Weekday};
 
-use opening_hours_syntax::rules::day::{self as ds, Date, Month};
+use opening_hours_syntax::rules::day::{self as ds, Month};
 
 use crate::localization::Localize;
 use crate::opening_hours::DATE_END;
@@ -281,6 +281,26 @@ fn date_year(date: &ds::Date) -> Option<i32> {
     }
 }
 
+/// A range made of a single day that does not exist every year (eg. "Feb 29" or "Apr 31") only
+/// covers the years where this day exists. Get the components of this day in such a case.
+fn single_unstable_day(start: &ds::Date, end: &ds::Date) -> Option<(Option<u16>, Month, u8)> {
+    match start {
+        ds::Date::Fixed { year, month, day } if start == end && *day > 28 => {
+            Some((*year, *month, *day))
+        }
+        _ => None,
+    }
+}
+
+/// Years where an occurrence of a single day may be relevant to the evaluation on `year`.
+fn unstable_day_years(fixed_year: Option<u16>, year: i32) -> RangeInclusive<i32> {
+    match fixed_year {
+        Some(fixed_year) => fixed_year.into()..=fixed_year.into(),
+        // Two leap years are at most 8 years apart
+        None => year - 1..=year + 8,
+    }
+}
+
 impl DateFilter for ds::MonthdayRange {
     fn filter<L>(&self, date: NaiveDate, _ctx: &Context<L>) -> bool
     where
@@ -299,12 +319,11 @@ impl DateFilter for ds::MonthdayRange {
             } => {
                 let year = date.year();
 
-                if *start == Date::md(29, Month::February) && *end == Date::md(29, Month::February)
-                {
+                if let Some((fixed_year, month, day)) = single_unstable_day(start, end) {
                     return is_open_from_intervals(
                         date,
-                        (year - 1..=DATE_END.year())
-                            .filter_map(|y| NaiveDate::from_ymd_opt(y, 2, 29))
+                        unstable_day_years(fixed_year, year)
+                            .filter_map(|y| NaiveDate::from_ymd_opt(y, month as _, day.into()))
                             .map(|d| start_offset.apply(d)..=end_offset.apply(d)),
                     );
                 }
@@ -420,12 +439,11 @@ impl DateFilter for ds::MonthdayRange {
             } => {
                 let year = date.year();
 
-                if *start == Date::md(29, Month::February) && *end == Date::md(29, Month::February)
-                {
+                if let Some((fixed_year, month, day)) = single_unstable_day(start, end) {
                     return Some(next_change_from_intervals(
                         date,
-                        (year - 1..=DATE_END.year())
-                            .filter_map(|y| NaiveDate::from_ymd_opt(y, 2, 29))
+                        unstable_day_years(fixed_year, year)
+                            .filter_map(|y| NaiveDate::from_ymd_opt(y, month as _, day.into()))
                             .map(|d| start_offset.apply(d)..=end_offset.apply(d)),
                     ));
                 }
